@@ -34,7 +34,7 @@ class C01(BaseMonitor):
             h = hist[-1] if r.random() < 0.6 else r.choice(hist)
             return {"op": "set", "obj": h["obj"], "attr": h["attr"], "value": copy.deepcopy(h["value"]), "src": h["src"],
                     "undo_of": h["i"], "reuse": h is hist[-1] and r.random() < 0.5, "i": i}
-        return opgen.gen_edit(r, self.sim.spec, self.cfg, i)
+        return opgen.gen_edit(r, self.sim.spec, self.cfg, i, focus=getattr(self, 'focus', None))
 
     def step(self, i, op):
         sim = self.sim
@@ -201,7 +201,7 @@ class C16(BaseMonitor):
         self.check_links(-1, {"op": "initial"})
 
     def next_op(self, i):
-        return opgen.gen_edit(self.k.rng("op", i), self.sim.spec, self.cfg, i, mix=opgen.C16_MIX)
+        return opgen.gen_edit(self.k.rng("op", i), self.sim.spec, self.cfg, i, mix=opgen.C16_MIX, focus=getattr(self, 'focus', None))
 
     # -- observation of the live links (no spec involved) -----------------------------------------
     def live_links(self):
@@ -503,7 +503,7 @@ class C14(FaultMonitorMixin, BaseMonitor):
                         return {"op": "bad_group", "changes": ch, "fault": e["fault"], "strong": e["strong"],
                                 "obj": e["obj"], "attr": e["attr"], "i": i}
                 return dict(bad, op="bad_set", fault=e["fault"], strong=e["strong"], i=i)
-        return opgen.gen_edit(r, spec, self.cfg, i)
+        return opgen.gen_edit(r, spec, self.cfg, i, focus=getattr(self, 'focus', None))
 
     def step(self, i, op):
         sim = self.sim
@@ -645,7 +645,7 @@ class C15(FaultMonitorMixin, BaseMonitor):
                 return op
         mix = [(opgen.gen_numeric, 40), (opgen.gen_categorical, 8), (opgen.gen_hourly, 8), (opgen.gen_link, 10),
                (opgen.gen_list_assign, 8), (opgen.gen_list_op, 8), (opgen.gen_group, 5), (opgen.gen_add_job, 4)]
-        return opgen.gen_edit(r, spec, self.cfg, i, mix=mix)
+        return opgen.gen_edit(r, spec, self.cfg, i, mix=mix, focus=getattr(self, 'focus', None))
 
     @staticmethod
     def revert_key(op):
@@ -780,7 +780,7 @@ class C05(FaultMonitorMixin, BaseMonitor):
                 if tag:
                     op["fault"] = tag
                 return op
-        return opgen.gen_edit(r, spec, self.cfg, i)
+        return opgen.gen_edit(r, spec, self.cfg, i, focus=getattr(self, 'focus', None))
 
     def snapshot_diff(self, before, i, op, oracle, what):
         after, pins = identity.snapshot(self.sim.world)
@@ -879,7 +879,7 @@ class C13(FaultMonitorMixin, BaseMonitor):
             return {"op": "restart", "with_calc": r.random() < 0.5, "v9": r.random() < 0.3, "fault": "F3", "i": i}
         if i == self.opts.get("n_ops_hint", 10) - 1 and not self.restarted:
             return {"op": "restart", "with_calc": r.random() < 0.5, "v9": False, "fault": "F3", "i": i}
-        return opgen.gen_edit(r, self.sim.spec, self.cfg, i)
+        return opgen.gen_edit(r, self.sim.spec, self.cfg, i, focus=getattr(self, 'focus', None))
 
     def step(self, i, op):
         sim = self.sim
@@ -1057,7 +1057,7 @@ class C18(FaultMonitorMixin, BaseMonitor):
             targets = [r.choice(objs) for _ in range(r.choice([1, 2, 4]))]
             return {"op": "read", "kind": kind, "targets": targets, "with_calc": r.random() < 0.7,
                     "cumsum": r.random() < 0.5, "fault": "F6", "i": i}
-        return opgen.gen_edit(r, spec, self.cfg, i)
+        return opgen.gen_edit(r, spec, self.cfg, i, focus=getattr(self, 'focus', None))
 
     def on_start(self):
         self.clean = True
@@ -1228,7 +1228,7 @@ class C19(BaseMonitor):
             if op is not None:
                 op["toggles"] = []
                 return op
-        return opgen.gen_edit(r, self.sim.spec, self.cfg, i, mix=self.MIX)
+        return opgen.gen_edit(r, self.sim.spec, self.cfg, i, mix=self.MIX, focus=getattr(self, 'focus', None))
 
     def step_simulation(self, i, op):
         """The what-if values are calculated quantities too: they must not depend on ids / orders either."""
@@ -1407,7 +1407,7 @@ def gen_mixed_op(mon, i, p_sim=0.12, p_restart=0.06, p_fail=0.08, p_bad=0.06, p_
         objs = sorted(inside)
         return {"op": "read", "kind": r.choice(READ_KINDS), "targets": [r.choice(objs) for _ in range(2)],
                 "with_calc": True, "cumsum": False, "fault": "F6", "i": i}
-    return opgen.gen_edit(r, spec, mon.cfg, i)
+    return opgen.gen_edit(r, spec, mon.cfg, i, focus=getattr(mon, 'focus', None))
 
 
 def run_mixed_op(mon, i, op):
@@ -1685,6 +1685,72 @@ class C08(BaseMonitor):
     def on_start(self):
         self.broken_reverts = []
         self.check_graph(-1, {"op": "initial"})
+        self.completeness_sweep(-1, {"op": "initial"}, self.opts.get("sweep_inputs_start", 6))
+
+    def on_end(self):
+        if not self.stop and not self.broken_reverts:
+            self.completeness_sweep(len(self.res.ops), {"op": "final-sweep"}, self.opts.get("sweep_inputs_end", 12))
+
+    def completeness_sweep(self, i, op, how_many):
+        """Completeness 'for every (input, calculated attribute) pair of the system', without waiting for an edit:
+        a keyed sample of the inputs is perturbed one at a time in the *description*; every calculated attribute
+        that differs between the two systems rebuilt from scratch must be a descendant of that input in the live
+        graph."""
+        sim = self.sim
+        spec = sim.spec
+        inside = S.closure(spec)
+        cands = []
+        for n in inside:
+            for a, v in spec["objs"][n]["attrs"].items():
+                if v is not None and v[0] in ("q", "h", "tz") and a != "fixed_nb_of_instances":
+                    cands.append((n, a))
+        if not cands:
+            return
+        chosen = self.k.shuffled(cands, "sweep", i)[:how_many]
+        try:
+            base = S.build_world(spec, sim.salt)
+        except Exception:
+            self.res.count("left_envelope")
+            return
+        base_snap = C.calc_snapshot(base, inside)
+        for (n, a) in chosen:
+            v = spec["objs"][n]["attrs"][a]
+            sp = S.clone(spec)
+            r = self.k.rng("sweep-value", i, n, a)
+            if v[0] == "q":
+                f = r.choice([0.5, 0.25, 2.0, 3.0])
+                new = ["q", (v[1] * f) if v[1] != 0 else 1.0, v[2]]
+                if a == "server_utilization_rate":
+                    new[1] = min(max(new[1], 0.3), 1.0)
+                if new[1] == v[1]:
+                    continue
+            elif v[0] == "tz":
+                new = ["tz", r.choice([z for z in gen.ZONES if z != v[1]])]
+            else:
+                new = ["h", v[1], [x * 1.5 + 1.0 for x in v[2]], v[3]]
+            sp["objs"][n]["attrs"][a] = new
+            try:
+                other = S.build_world(sp, sim.salt)
+            except Exception:
+                self.res.count("sweep_perturbation_refused")
+                continue
+            changed = C.diff_snapshots(base_snap, C.calc_snapshot(other, inside), self.cls_of)
+            self.res.count("sweep_inputs_perturbed")
+            if not changed:
+                continue
+            x = getattr(sim.world.objs[n], a)
+            try:
+                desc = {d.id for d in x.all_descendants_with_id}
+            except Exception as e:
+                raise Violation("C08", "graph_walk_raises", {type(e).__name__}, f"descendants of {n}.{a}: {e}", i, op_kind(op))
+            missing = []
+            for (m, attr), why in changed:
+                vid = f"{attr}-in-{sim.world.objs[m].id}"
+                if vid not in desc:
+                    missing.append(((m, attr), f"changes when {n}.{a} changes ({why[:50]}) but is not among its descendants"))
+            self.res.count("completeness_pairs_checked", len(changed))
+            if missing:
+                raise Violation("C08", "incomplete_graph", self.where_of(missing), self.fmt(missing), i, op_kind(op))
 
     def next_op(self, i):
         return gen_mixed_op(self, i)
